@@ -67,13 +67,19 @@ type reqState struct {
 	grp         *hintGroup // requests sharing one persisted hint (the cache keys conf hints by txid alone)
 	multi       bool    // more than one matching tx was on the chain at once (script reuse): semantics left open
 	stale       bool    // a stale rescan answer naming a vanished block was delivered
+	orphan      bool    // a positive rescan answer arrived while no client was subscribed any more
+}
+
+// judged reports whether the liveness/hint obligations apply to the request.
+func (rs *reqState) judged() bool {
+	return rs.grp.allOK && !rs.multi && !rs.stale
 }
 
 func (rs *reqState) answered() bool { return rs.registered && rs.outstanding == nil && !rs.dropped }
 
 func (rs *reqState) resetEpoch() {
 	rs.registered, rs.outstanding, rs.dropped = false, nil, false
-	rs.stale = false
+	rs.stale, rs.orphan = false, false
 	// multi stays: what an earlier epoch persisted for a reused script
 	// (several transactions paying it) is not judged either.
 }
@@ -83,7 +89,10 @@ func (rs *reqState) resetEpoch() {
 // request stored under this cache key was at or below the height at which the
 // request is actually confirmed/spent; a client that breaks its promise
 // forfeits what the property guarantees.
-type hintGroup struct{ allOK bool }
+type hintGroup struct {
+	allOK    bool
+	regEpoch int // last epoch in which some request of the group was registered (-1: never)
+}
 
 // rescan is a HistoricalDispatch travelling through the simulated backend.
 type rescan struct {
@@ -147,6 +156,8 @@ type Sim struct {
 	R *simcore.Run
 	K Knobs
 	U *universe
+
+	epochStartTip, epochLowTip uint32 // tip when this notifier was built / lowest tip since
 
 	base   uint32 // height of the notifier at the very start; blocks at or below are prehistory
 	chain  []*blk
@@ -216,6 +227,7 @@ func (s *Sim) boot() {
 	s.ntUp = true
 	s.depth = 0
 	s.half = nil
+	s.epochStartTip, s.epochLowTip = s.tip(), s.tip()
 }
 
 // Close releases a possibly blocked notifier goroutine.
@@ -240,11 +252,14 @@ func (s *Sim) fail(rs *reqState, code, format string, args ...interface{}) {
 			s.R.FailSig(code, "after-fault", "%s [faulty arm: earlier in this run a hint write was lost (injected I/O error, or crash inside a notifier call)]", msg)
 		}
 	}
+	kind := "conf"
+	if rs != nil && rs.spend {
+		kind = "spend"
+	}
+	if rs != nil && rs.orphan && !rs.stale {
+		s.R.FailSig("orphan-details-untracked", kind, "%s [request %s received a positive historical-rescan answer while it had no subscriber left; consequence class %s]", msg, rs.key, code)
+	}
 	if rs != nil && rs.stale {
-		kind := "conf"
-		if rs.spend {
-			kind = "spend"
-		}
 		s.R.FailSig("stale-rescan-accepted", kind, "%s [request %s was earlier handed a historical rescan answer naming a block that had already left the active chain; consequence class %s]", msg, rs.key, code)
 	}
 	s.R.Fail(code, "%s", msg)
@@ -783,7 +798,7 @@ func (s *Sim) updateDue(c *client) {
 			c.due, c.dueBlk = false, nil
 		}
 	}
-	if c.due || c.done || len(hs) != 1 || rs.multi || rs.stale || !rs.grp.allOK {
+	if c.due || c.done || len(hs) != 1 || !rs.judged() {
 		return
 	}
 	h := hs[0]
@@ -844,7 +859,7 @@ func (s *Sim) queryHint(rs *reqState) (uint32, bool) {
 // request is confirmed/spent on the active chain.
 func (s *Sim) checkHints() {
 	for _, rs := range s.reqOrder {
-		if !rs.registered || rs.multi || !rs.grp.allOK {
+		if !rs.registered || !rs.judged() {
 			continue
 		}
 		hint, ok := s.queryHint(rs)
